@@ -335,7 +335,10 @@ def _run_hostile(hostile, placement, need_fo=False, probes=True, allowed=(), wan
         want_a, want_b = list(dict(store)["a"]), list(dict(store)["b"])
         new = sim.Session(S, ("127.0.0.1", 10010), wait_timeout=25)
         rn = new.feed(W.register(b"ctx-new-"))
-        for who, sess, first in (("older", older, older.conn.sent[0]), ("new", new, rn[0] if rn else None)):
+        same = sim.Session(S, ADDR, wait_timeout=25)          # a client reconnecting from the very same address and port
+        rs = same.feed(W.register(b"ctx-same"))
+        for who, sess, first in (("older", older, older.conn.sent[0]), ("new", new, rn[0] if rn else None),
+                                 ("same-peer", same, rs[0] if rs else None)):
             try:
                 handle = W.split_frames(first)[0]["session"]
                 rr = sess.feed(W.send_rr_data(handle, W.read_tag(W.tag_path("a"), 4), b"ctx-prba"))
@@ -349,6 +352,7 @@ def _run_hostile(hostile, placement, need_fo=False, probes=True, allowed=(), wan
                 bad.append(("other-session-broken", "%s session failed after hostile input: %s: %s" % (who, type(exc).__name__, exc)))
         older.close()
         new.close()
+        same.close()
         # (observation, not demanded by the statement: a connection that ends in a *parse* failure never gives the Connection
         #  Manager its termination call, so its Forward Open entry stays in Connection_Manager.forwards -- see DESIGN.md)
     if want_store:
